@@ -55,7 +55,7 @@ fn fail(v: Violation) -> ! {
 }
 
 /// one iteration: see the module documentation
-fn run_once(spec: &RunSpec) {
+fn run_once(spec: &RunSpec, c18: bool) {
     ITER.fetch_add(1, Ordering::Relaxed);
     let mut shared: Vec<Box<dyn Slot>> = vec![];
     let mut refs: Vec<Box<dyn Slot>> = vec![];
@@ -117,7 +117,8 @@ fn run_once(spec: &RunSpec) {
             COMPARED.fetch_add(1, Ordering::Relaxed);
             let op = &spec.threads[t].ops[i];
             let cfg = &spec.slots[op.slot];
-            if cfg.kind.is_probe() {
+            // the C18 checks belong to the C18 check; a C17 run only compares with the reference
+            if c18 && cfg.kind.is_probe() {
                 let mut v18 = vec![];
                 crate::engine::check_c18(op, cfg, out, t, i, *at, &mut v18);
                 if let Some(v) = v18.into_iter().next() {
@@ -125,7 +126,7 @@ fn run_once(spec: &RunSpec) {
                 }
             }
             if op.elem_fault == 0 && !out.same_answer(&table[t][i]) {
-                let probe = cfg.kind.is_probe();
+                let probe = c18 && cfg.kind.is_probe();
                 fail(Violation {
                     property: if probe { "C18".into() } else { "C17".into() },
                     kind: if probe { "concurrent-operation-affected".into() } else { "result-mismatch".into() },
@@ -214,7 +215,7 @@ pub enum Mode {
 }
 
 /// returns the process exit code: 0 = held on every schedule, 1 = violation (MISMATCH line)
-pub fn run(spec: RunSpec, sched_seed: u64, iters: usize, mode: Mode, persist_dir: Option<String>) -> i32 {
+pub fn run(spec: RunSpec, c18: bool, sched_seed: u64, iters: usize, mode: Mode, persist_dir: Option<String>) -> i32 {
     use shuttle::scheduler::{PctScheduler, RandomScheduler, ReplayScheduler};
     println!("WORKLOAD {:016x} slots={} threads={} ops={}", spec.workload_hash(), spec.slots.len(), spec.threads.len(), spec.n_ops());
     for c in &spec.slots {
@@ -237,7 +238,7 @@ pub fn run(spec: RunSpec, sched_seed: u64, iters: usize, mode: Mode, persist_dir
     let s2 = spec.clone();
     let body = move || {
         install_hook();
-        run_once(&s2);
+        run_once(&s2, c18);
     };
     let result = std::panic::catch_unwind(std::panic::AssertUnwindSafe(|| match mode {
         Mode::Random => shuttle::Runner::new(RandomScheduler::new_from_seed(sched_seed, iters), config).run(body),
